@@ -11,7 +11,7 @@ R6 no history-dependent state (memo tables keyed incompletely, shared scratch co
 """
 import ast
 
-from sa import sym
+from sa import sym, boolalg
 from sa.sym import show, num, num_value, atoms_of
 from sa.cfg import CFG
 from sa.model import callee_attr, dotted, own_calls, own_nodes
@@ -89,6 +89,19 @@ def _r1_level1(run):
                   construct="toast." + name, file="toasty/toast.py", table=rows)
 
 
+def _row_base(corners, k):
+    """X if corners is `X[k]` (X possibly a case distinction, written either as (c ? A : B)[k] or c ? A[k] : B[k])."""
+    if corners[0] == "item" and corners[2] == k:
+        return corners[1]
+    if corners[0] == "sub" and num_value(corners[2]) == k:
+        return corners[1]
+    if corners[0] == "ite":
+        a, b = _row_base(corners[2], k), _row_base(corners[3], k)
+        if a is not None and b is not None:
+            return ("ite", corners[1], a, b)
+    return None
+
+
 def _r2_level1_tiles(run):
     project = run.project
     f = project.fn(T + "._create_level1_tiles")
@@ -114,10 +127,11 @@ def _r2_level1_tiles(run):
         x, y = k % 2, k // 2
         if pos != ("nt", "Pos", (num(1), num(x), num(y))):
             problems.append("element %d has position %s, expected Pos(1, %d, %d) (list index 2*y+x)" % (k, show(pos), x, y))
-        if not (corners[0] == "sub" and num_value(corners[2]) == k):
+        base_k = _row_base(corners, k)
+        if base_k is None:
             problems.append("element %d takes its corners from %s, expected row %d of the level-1 table" % (k, show(corners)[:80], k))
         else:
-            lon_t = corners[1]
+            lon_t = base_k
         if inc != ("const", want_inc[k]):
             problems.append("tile (1,%d,%d) has increasing=%s, expected %s" % (x, y, show(inc), want_inc[k]))
     # orientation flags agree with the table: the diagonal joins the two equatorial corners
@@ -143,8 +157,8 @@ def _r2_level1_tiles(run):
         want_idx = ("tuple", (("const", Ellipsis), num(0)))
         is_copy = base[0] == "call" and base[1][0] == "attr" and base[1][2] == "copy" and base[1][1] == table
         want_val = ("op", "mod", (sym.add(("sub", base, want_idx), sym.PI), sym.mul(num(2), sym.PI)))
-        cond_ok = len(conds) == 1 and conds[0][1] is True and conds[0][0][0] == "op" and conds[0][0][1] == "cmp:Eq" \
-            and coordsys in conds[0][0][2] and any("PLANETARY" in show(x) for x in conds[0][0][2])
+        planetary = [a for a in atoms_of(boolalg.conj(e.pc)) if a[0] == "attr" and a[2] == "PLANETARY"]
+        cond_ok = bool(planetary) and boolalg.equiv(boolalg.conj(e.pc), sym.cmp("Eq", coordsys, planetary[0])) is True
         if not is_copy:
             msg = "the planetary offset is applied to %s, not to a copy of the level-1 table (the astronomical table would be altered)" % show(base)[:80]
         elif idx != want_idx:
@@ -155,11 +169,13 @@ def _r2_level1_tiles(run):
             msg = "the longitude offset is applied under %s, expected exactly coordsys == PLANETARY" % [show(c[0])[:80] for c in conds]
         else:
             ok = True
+            conds_planetary = sym.cmp("Eq", coordsys, planetary[0])
             # and the tiles of that branch use the shifted copy
         if ok:
             break
     if ok and lon_t is not None:
-        ok2 = lon_t[0] == "ite" and lon_t[2][0] == "call" and lon_t[3] == table
+        ok2 = lon_t[0] == "ite" and ((lon_t[2][0] in ("call", "new") and lon_t[3] == table and boolalg.equiv(lon_t[1], conds_planetary) is True)
+                                     or (lon_t[3][0] in ("call", "new") and lon_t[2] == table and boolalg.equiv(("op", "not", (lon_t[1],)), conds_planetary) is True))
         if not ok2:
             ok = False
             msg = "the tiles are built from %s; expected the shifted copy for PLANETARY and the table itself otherwise" % show(lon_t)[:120]
@@ -237,141 +253,146 @@ def _r4_constructors(run):
     else:
         run.holds("C04.R4", project.fn(T + "._div4"), None, "Tile(...) with corners is constructed only by _create_level1_tiles and _div4",
                   sites=len(sites))
-    if len(sites) < 9:
-        run.undecided("C04.R4", None, None, "only %d Tile(...) construction sites found (9 confirmed by hand)" % len(sites), kind="floor",
-                      construct="<Tile sites>", file="toasty/toast.py")
+    owners = {f.qual for f, c in sites}
+    if not allowed <= owners:
+        run.undecided("C04.R4", None, None, "no Tile(...) construction found in %s (the who-may-construct query sees %d sites)" % (
+            sorted(allowed - owners), len(sites)), kind="floor", construct="<Tile sites>", file="toasty/toast.py")
+
+
+def _local_reach(project, f, seen=None):
+    """Qualified names of the toast.py functions reachable from f through direct calls by name."""
+    seen = seen if seen is not None else set()
+    for c in own_calls(f.node):
+        d = dotted(c.func) or ""
+        g = project.funcs.get(T + "." + d)
+        if g is not None and g.qual not in seen:
+            seen.add(g.qual)
+            _local_reach(project, g, seen)
+    return seen
+
+
+def _streams(r):
+    """What a generator yields, as (path condition, stream term): `yield from X` and `for i in X: yield i` both give X."""
+    out = []
+    loops = {k: it for k, it, n in r.loops}
+    for pc, v, n in r.yields:
+        if v[0] == "star":
+            out.append((pc, v[1], n))
+            continue
+        inner = [c[1] for c in pc if c[0] == "loop"]
+        if inner and v == ("elem", loops.get(inner[-1])):
+            k = inner[-1]
+            i = pc.index(("loop", k))
+            if i == len(pc) - 1:
+                out.append((pc[:i], loops[k], n))
+                continue
+        out.append((pc, ("tuple", (v,)), n))
+    return out
 
 
 def _r5_routes(run):
     project = run.project
     ev = sym.make_evaluator(project, T, [])
-    # (a) generate_tiles delegates to generate_tiles_filtered with an always-true filter
+    # (a) whoever receives a coordinate system hands exactly that one to every callee that takes one
+    n_fwd = 0
+    for f in project.py_funcs():
+        if f.module.name != T or "coordsys" not in f.params():
+            continue
+        r = ev.run(f.node)
+        own = ("sym", "coordsys")
+        for e in r.events:
+            if e.kind != "call":
+                continue
+            g, binding = ev.bound_args(e.term)
+            if g is None or "coordsys" not in g.params():
+                continue
+            n_fwd += 1
+            run.call_sites += 1
+            if binding is None:
+                run.undecided("C04.R5", f, e.node, "cannot bind the arguments of %s" % show(e.term)[:80], kind="coordsys-binding")
+            elif "coordsys" not in binding:
+                run.violated("C04.R5", f, e.node, "%s calls %s without its coordinate system: the callee falls back to its default and builds the "
+                             "tiles of the other system" % (f.short, g.short), kind="coordsys-dropped", callee=g.short)
+            elif binding["coordsys"] != own:
+                run.violated("C04.R5", f, e.node, "%s passes coordsys=%s to %s instead of its own coordsys parameter" % (
+                    f.short, show(binding["coordsys"])[:60], g.short), kind="coordsys-replaced", callee=g.short)
+            else:
+                run.holds("C04.R5", f, e.node, "%s forwards its coordsys to %s" % (f.short, g.short))
+    if n_fwd < 4:
+        run.undecided("C04.R5", None, None, "only %d coordsys-forwarding call sites found (4 confirmed by hand)" % n_fwd, kind="floor",
+                      construct="<coordsys forwarding>", file="toasty/toast.py")
+    # (b) generate_tiles delegates to generate_tiles_filtered with an always-true filter
     f = project.fn(T + ".generate_tiles")
     run.note_func(f)
     r = ev.run(f.node)
+    cands = [t for pc, t, n in r.returns if not [c for c in pc if c[0] != "loop"]] + [t for pc, t, n in _streams(r) if not pc]
     ok = False
-    if len(r.returns) == 1:
-        t = r.returns[0][1]
-        if t[0] == "call" and t[1] == ("sym", "generate_tiles_filtered") and len(t[2]) >= 3 and t[2][0] == ("sym", "depth") \
-                and t[2][2] == ("sym", "bottom_only") and dict(t[3]).get("coordsys") == ("sym", "coordsys") and t[2][1][0] == "lambda":
-            lam = [n for n, env in r.lambdas]
-            ok = bool(lam) and isinstance(lam[0].body, ast.Constant) and lam[0].body.value is True
+    if len(cands) == 1 and cands[0][0] == "call":
+        g, binding = ev.bound_args(cands[0])
+        if g is not None and g.qual == T + ".generate_tiles_filtered" and binding:
+            flt = binding.get("filter")
+            accept_all = False
+            if flt is not None and flt[0] == "lambda":
+                lam = [n for n, env in r.lambdas if id(n) == flt[2]]
+                accept_all = bool(lam) and isinstance(lam[0].body, ast.Constant) and lam[0].body.value is True
+            ok = accept_all and binding.get("depth") == ("sym", "depth") and binding.get("bottom_only") == ("sym", "bottom_only") \
+                and binding.get("coordsys") == ("sym", "coordsys")
     if ok:
         run.holds("C04.R5", f, None, "generate_tiles = generate_tiles_filtered(depth, always-true, bottom_only, coordsys)")
     else:
         run.violated("C04.R5", f, None, "generate_tiles no longer delegates to generate_tiles_filtered with an accept-all filter and its own "
                      "depth/bottom_only/coordsys", kind="route-generate")
-    # (b) generate_tiles_filtered starts from _create_level1_tiles(coordsys), descends with _postfix_corner
-    f = project.fn(T + ".generate_tiles_filtered")
-    run.note_func(f)
-    r = ev.run(f.node)
-    lv1 = ("call", ("sym", "_create_level1_tiles"), (("sym", "coordsys"),), ())
-    loops = [(k, it, n) for k, it, n in r.loops if it == lv1]
-    pc_calls = [e for e in r.events if e.kind == "call" and e.term[1] == ("sym", "_postfix_corner")]
-    ok = bool(loops) and len(pc_calls) == 1
-    if ok:
-        el = ("elem", lv1)
-        e = pc_calls[0]
-        ok = e.term[2] == (el, ("sym", "depth"), ("sym", "filter"), ("sym", "bottom_only"))
-        conds = [c for c in e.pc if c[0] != "loop"]
-        ok = ok and conds == [(("call", ("sym", "filter"), (el,), ()), True)]
-    if ok:
-        run.holds("C04.R5", f, None, "enumeration: for t in level-1 tiles(coordsys): if filter(t): _postfix_corner(t, depth, filter, bottom_only)")
-    else:
-        run.violated("C04.R5", f, None, "filtered enumeration no longer starts from _create_level1_tiles(coordsys) and descends each accepted "
-                     "level-1 tile with _postfix_corner(t, depth, filter, bottom_only)", kind="route-enumeration")
-    # (c) create_single_tile
+    # (c) every route obtains its tiles from _create_level1_tiles and _div4 (nobody else constructs tiles: R4)
+    for q, need in ((T + ".generate_tiles_filtered", ("_create_level1_tiles", "_div4")), (T + ".create_single_tile", ("_create_level1_tiles", "_div4")),
+                    (T + ".toast_tile_for_point", ("_create_level1_tiles", "_div4")), (T + "._postfix_corner", ("_div4",))):
+        f = project.fn(q)
+        run.note_func(f)
+        reach = _local_reach(project, f)
+        missing = [x for x in need if T + "." + x not in reach]
+        if missing:
+            run.violated("C04.R5", f, None, "%s never reaches %s: this route builds or finds its tiles differently from the others" % (f.short, missing),
+                         kind="route-" + f.name)
+        else:
+            run.holds("C04.R5", f, None, "%s obtains tiles only through %s" % (f.short, " and ".join(need)))
+    # (d) create_single_tile: child 2*iy+ix with ix, iy the bits of pos.x, pos.y at one common bit position; stops at bit 0
     f = project.fn(T + ".create_single_tile")
-    run.note_func(f)
     r = ev.run(f.node)
     pos = ("sym", f.params()[0])
     problems = []
-    ch_assign = [e for e in r.events if e.kind == "assign" and e.term[1][0] == ("sym", "children")]
-    vals = [e.term[1][1] for e in ch_assign]
-    if not vals or vals[0] != ("call", ("sym", "_create_level1_tiles"), (("sym", f.params()[1]),), ()):
-        problems.append("does not start from _create_level1_tiles(coordsys)")
-    deeper = [v for v in vals[1:]]
-    tile_assign = [e for e in r.events if e.kind == "assign" and e.term[1][0] == ("sym", "tile")]
-    if not tile_assign:
-        problems.append("no child selection found")
-    else:
-        sel = tile_assign[-1].term[1][1]
-        if sel[0] != "sub":
-            problems.append("child selection %s is not an index into the children list" % show(sel)[:80])
+    lv1 = [e for e in r.events if e.kind == "call" and e.term[1] == ("sym", "_create_level1_tiles")]
+    sels = []
+    for e in r.events:
+        if e.kind == "assign":
+            v = e.term[1][1]
+            if v[0] == "sub" and v[1][0] == "sym" and "@" in v[1][1]:
+                sels.append((e, v))
+    if not sels:
+        problems.append("no child selection `children[index]` found in the descent loop")
+    d = None
+    for e, v in sels:
+        idx = v[2]
+        shifts = [a for a in atoms_of(idx) if a[0] == "op" and a[1] == "rshift"]
+        d = None
+        for a in shifts:
+            if a[2][0] == ("attr", pos, "x"):
+                d = a[2][1]
+        if d is None:
+            problems.append("child index %s does not use the bits of pos.x" % show(idx)[:100])
         else:
-            idx = sel[2]
-            shifts = [a for a in atoms_of(idx) if a[0] == "op" and a[1] == "rshift"]
-            d = None
-            for a in shifts:
-                if a[2][0] == ("attr", pos, "x"):
-                    d = a[2][1]
-            if d is None:
-                problems.append("child index %s does not use the bits of pos.x" % show(idx)[:100])
-            else:
-                want = ev.expr("2*((p.y >> d) & 1) + ((p.x >> d) & 1)", {"p": pos, "d": d})
-                if idx != want:
-                    problems.append("child index is %s, expected 2*iy + ix with ix, iy the bits of pos.x, pos.y" % show(idx)[:140])
-                # the shift is pos.n - current level
-                dd = sym.sub(("attr", pos, "n"), d)
-                if not (dd[0] == "sym" or dd[0] == "poly"):
-                    problems.append("bit position %s is not pos.n minus the current level" % show(d))
-        for v in deeper:
-            if v[0] == "call" and v[1][0] == "sym" and v[1][1] != "_div4" and len(v[2]) == 1:
-                w = project.funcs.get(T + "." + v[1][1])
-                if w is not None and any(dotted(c.func) == "_div4" for c in own_calls(w.node)):
-                    continue    # a wrapper around _div4: its soundness (e.g. a cache) is decided by R6
-            if not (v[0] == "call" and v[1] == ("sym", "_div4") and len(v[2]) == 1):
-                problems.append("descends with %s instead of _div4(tile)" % show(v)[:80])
-            elif tile_assign and v[2][0] != tile_assign[-1].term[1][1] and v[2][0][0] != "sym":
-                pass
-        if not deeper:
-            problems.append("never descends with _div4")
-    rets = [t for pc, t, n in r.returns]
+            want = ev.expr("2*((p.y >> d) & 1) + ((p.x >> d) & 1)", {"p": pos, "d": d})
+            if idx != want:
+                problems.append("child index is %s, expected 2*iy + ix with ix, iy the bits of pos.x, pos.y" % show(idx)[:140])
+    if d is not None and not problems:
+        stop = sym.cmp("Eq", d, sym.ZERO)
+        rets = [(pc, t) for pc, t, n in r.returns]
+        carried = {a for a in atoms_of(d) if a[0] == "sym" and "@" in a[1]}
+        conds = [boolalg.conj([c for c in pc if c[0] != "loop" and (atoms_of(c[0]) & carried if carried else True)]) for pc, t in rets]
+        if not rets or not any(boolalg.equiv(c, stop) is True for c in conds):
+            problems.append("the descent does not stop exactly at bit 0 (level pos.n): returns under %s" % [show(c)[:80] for c in conds])
     if problems:
         run.violated("C04.R5", f, None, "create_single_tile " + "; ".join(problems), kind="route-single-tile", problems=problems)
     else:
-        run.holds("C04.R5", f, None, "single tile: level-1 tiles(coordsys), then children[2*iy+ix] / _div4 from the most significant bit down")
-    # (d) toast_tile_for_point: level-1 tiles of the caller's coordsys; replaced only by elements of _div4(tile)
-    f = project.fn(T + ".toast_tile_for_point")
-    run.note_func(f)
-    r = ev.run(f.node)
-    problems = []
-    lv1p = ("call", ("sym", "_create_level1_tiles"), (("sym", "coordsys"),), ())
-    if not [1 for k, it, n in r.loops if it == lv1p]:
-        problems.append("does not start from _create_level1_tiles(coordsys)")
-    div_loops = [(k, it, n) for k, it, n in r.loops if it[0] == "call" and it[1] == ("sym", "_div4")]
-    if not div_loops:
-        problems.append("does not descend through _div4")
-    for e in r.events:
-        if e.kind == "assign" and e.term[1][0] == ("sym", "tile"):
-            v = e.term[1][1]
-            in_div = any(("loop", k) in e.pc for k, it, n in div_loops)
-            if in_div:
-                k, it, n = [x for x in div_loops if ("loop", x[0]) in e.pc][-1]
-                if v != ("elem", it):
-                    problems.append("the current tile is replaced by %s, not by a child from _div4" % show(v)[:80])
-            elif v != ("elem", lv1p):
-                problems.append("the current tile is set to %s outside the level-1 / _div4 loops" % show(v)[:80])
-    for k, it, n in div_loops:
-        if it[2] and it[2][0][0] not in ("sym", "ite", "elem"):
-            problems.append("_div4 is applied to %s" % show(it[2][0])[:60])
-    if problems:
-        run.violated("C04.R5", f, None, "toast_tile_for_point " + "; ".join(problems[:3]), kind="route-point-lookup", problems=problems)
-    else:
-        run.holds("C04.R5", f, None, "point lookup: level-1 tiles(coordsys), current tile only ever replaced by an element of _div4(current)")
-    # (e) _postfix_corner descends with _div4(tile) -- also C01.R6
-    f = project.fn(T + "._postfix_corner")
-    run.note_func(f)
-    loops = [n for n in own_nodes(f.node) if isinstance(n, ast.For) and isinstance(n.iter, ast.Call) and dotted(n.iter.func) == "_div4"
-             and len(n.iter.args) == 1 and isinstance(n.iter.args[0], ast.Name) and n.iter.args[0].id == f.params()[0]]
-    any_div4 = [c for c in own_calls(f.node) if dotted(c.func) == "_div4"]
-    if loops:
-        run.holds("C04.R5", f, loops[0], "depth-first enumeration descends with _div4(tile)")
-    elif any_div4:
-        run.holds("C04.R5", f, any_div4[0], "enumeration obtains children only from _div4 (iteration shape decided by C01.R6/C13.R2)")
-    else:
-        run.violated("C04.R5", f, None, "_postfix_corner never calls _div4: the enumeration route builds tiles differently",
-                     kind="route-postfix")
+        run.holds("C04.R5", f, None, "single tile: children[2*iy+ix] from the bits of (pos.x, pos.y), down to bit 0")
 
 
 def _r6_state(run):
